@@ -27,7 +27,7 @@ type Req struct {
 	Strict      bool       `json:"strict,omitempty"`
 	Jail        bool       `json:"jail,omitempty"`        // mkdir/verify: run inside a fresh temp dir and report it
 	Target      string     `json:"target,omitempty"`      // explicit target directory (the parent owns the jail)
-	TargetSpell string     `json:"targetspell,omitempty"` // Target handed over in another spelling of the same directory, relative to its grandparent (the worker changes into it): "slash" p/t/, "dot" ./p/t, "dslash" p//t, "dotin" p/./t
+	TargetSpell string     `json:"targetspell,omitempty"` // Target handed over in another spelling of the same directory, relative to its grandparent (the worker changes into it): "slash" p/t/, "dot" ./p/t, "dslash" p//t, "dotin" p/./t, "dotdot" p/gone/../t
 	Route       string     `json:"route,omitempty"`       // "" / "md": From-Markdown; "root": From-Root (tree built from Items)
 	Items       []Item     `json:"items,omitempty"`
 	Alias       bool       `json:"alias,omitempty"`     // use the deprecated alias of the entry point
